@@ -308,6 +308,9 @@ def durable_execution(
             invocation_input.checkpoint_token,
             invocation_input.initial_execution_state.next_marker,
         )
+        # The first page may hold only the EXECUTION operation: decide whether this invocation
+        # replays completed work only now that every page of the history has been loaded.
+        execution_state.begin_replay_if_history_has_completed_operations()
 
         durable_context: DurableContext = DurableContext.from_lambda_context(
             state=execution_state, lambda_context=context
